@@ -119,7 +119,7 @@ pickle.dump(out, open(sys.argv[2], 'wb'))
 '''
 
 
-def in_fresh_process(ctx, pass_, state, text, fname):
+def in_fresh_process(ctx, pass_, state, text, fname, hashseed=None):
     """what a worker that shares no memory with the driver computes from the pickled (pass, cursor)"""
     import subprocess
     d = os.path.join(ctx.tmp, 'c11-fresh')
@@ -134,7 +134,8 @@ def in_fresh_process(ctx, pass_, state, text, fname):
     w = os.path.join(d, 'w.py')
     with open(w, 'w') as f:
         f.write(WORKER)
-    env = dict(os.environ, PYTHONPATH=os.environ.get('VERIF_REPO', '/repo'))
+    # a worker started afresh does not share the driver's string-hash seed either
+    env = dict(os.environ, PYTHONPATH=os.environ.get('VERIF_REPO', '/repo'), PYTHONHASHSEED=str(hashseed if hashseed is not None else 1 + (len(text) * 7919 + len(fname)) % 4000))
     r = subprocess.run(['/venv/bin/python', w, os.path.join(d, 'in.pkl'), os.path.join(d, 'out.pkl')], capture_output=True, text=True, env=env, timeout=120)
     if r.returncode != 0:
         return ('WORKER-DIED:' + r.stderr[-300:], None)
@@ -423,6 +424,30 @@ def explore(ctx):
                 p.max_transforms = None
                 return p
             ex.explore('ifs::None', mkif, t, rnd, steps=20)
+    # UnIfDefPass (unifdef -s lists the symbols; cursor k = symbol k // 2 defined / undefined): several symbols, used repeatedly
+    from cvise.passes.unifdef import UnIfDefPass
+    untexts = ['#ifdef ALPHA\na\n#endif\n#ifndef Beta\nb\n#endif\n#if gamma\nc\n#else\nd\n#endif\n#ifdef ALPHA\ne\n#endif\n',
+               '#ifdef Q\n#ifdef zz\nx\n#endif\n#ifdef M1\ny\n#endif\n#endif\n#ifndef k\nw\n#endif\n#ifdef W9\nv\n#endif\n', 'int a;\n']
+    for t in untexts:
+        for _ in range(2 if ctx.quick() else 6):
+            def mkun():
+                p = UnIfDefPass(None, {'unifdef': UNIFDEF})
+                p.max_transforms = None
+                return p
+            ex.explore('unifdef::None', mkun, t, rnd, steps=16)
+    # the candidate of a cursor must not depend on the interpreter's string-hash seed (workers are separate processes; a rerun of
+    # C-Vise is another process): the same (pass, cursor, file) in processes started with different seeds
+    for label, mk_, texts_, states_ in (('unifdef::None', mkun, untexts[:2], range(0, 10)),):
+        for t in texts_:
+            for st in states_:
+                got = [in_fresh_process(ctx, mk_(), st, t, 'hs.c', hashseed=hs) for hs in (1, 2, 77)]
+                ctx.evaluations += 3
+                ctx.count('fresh-process-hashseed')
+                if got[0] != got[1] or got[0] != got[2]:
+                    ctx.violation(f'nondeterministic:{label}', f'{label}: cursor {st} on {t!r} gives {str(got[0])[:120]} in a process with PYTHONHASHSEED=1, '
+                                  f'{str(got[1])[:120]} with 2, {str(got[2])[:120]} with 77: the candidate is not a function of (file, cursor, configuration)',
+                                  {'pass': label, 'text': t, 'state': st})
+                    break
     for bad_tool in ('/nonexistent/unifdef', os.path.join(ctx.tmp, 'not-executable')):
         if 'not-executable' in bad_tool:
             with open(bad_tool, 'w') as f:
